@@ -22,10 +22,11 @@ ObjSorts == {"Evt", "Jet", "Trk"}
 SeqOf(x) == "Seq" \o x
 (* packaging sorts: Pair = (Int, Int); Rec = {k1: Int, k2: Int}; Nest = (Pair, Int);  *)
 (* RecP = {k1: Pair, k2: Int}; PS = (SeqJet, Int)                                     *)
-PackSorts == {"Pair", "Rec", "Nest", "RecP", "PS", "PSP"}      \* PSP = (SeqPair, Int)
-ElemSorts == IF Fam = "chainp" THEN {"Evt", "Jet", "Int", "Pair", "PSP", "SeqInt"}   \* nested packaging and
+PackSorts == {"Pair", "Rec", "Nest", "RecP", "PS", "PSP", "RecS"}   \* PSP = (SeqPair, Int); RecS = {k1: PS, k2: Pair}
+ElemSorts == IF Fam = "mdp" THEN {"Evt", "Jet", "Int", "PS", "RecS"}      \* MetaData wrappers inside packaged values
+             ELSE IF Fam = "chainp" THEN {"Evt", "Jet", "Int", "Pair", "PSP", "SeqInt"}   \* nested packaging and
                                                         \* nested result sequences, few sorts, deep
-             ELSE ObjSorts \cup {"Int"} \cup (IF Fam \in {"chain", "chain1", "chainx"} THEN PackSorts ELSE {})
+             ELSE ObjSorts \cup {"Int"} \cup (IF Fam \in {"chain", "chain1", "chainx"} THEN PackSorts \ {"RecS"} ELSE {})
 SeqSorts == {SeqOf(x) : x \in ElemSorts}
 Elem(sq) == CHOOSE x \in ElemSorts : SeqOf(x) = sq
 IsSeqSort(s) == s \in SeqSorts
@@ -37,7 +38,7 @@ Fields == { <<"Evt", "met", "Int">>, <<"Evt", "n", "Int">>, <<"Evt", "jets", "Se
 
 (* ------------------------------------------------------------------ *)
 (* production families                                                *)
-Binders == CASE Fam \in {"fuse1", "chain1", "md1", "chainx", "chainp"} -> {"x"}
+Binders == CASE Fam \in {"fuse1", "chain1", "md1", "chainx", "chainp", "mdp"} -> {"x"}
              [] Fam = "helper" -> {"a", "t"}
              [] OTHER -> {"x", "y"}
 
@@ -57,12 +58,14 @@ Enabled(prod) ==
                                     "Sum"}
       [] Fam = "idx"   -> prod \in {"Select", "First", "Count", "TupProj", "ListProj", "DictProj",
                                     "DictAttr", "NegIdx", "VarIdx", "SliceIdx", "OutIdx", "AbsentKey",
-                                    "Add", "Beta"}
+                                    "Add", "Beta", "UnIdx"}
       [] Fam = "agg"   -> prod \in {"Select", "Where", "SelectMany", "Count", "Len", "Sum", "Max", "Min",
-                                    "Add", "Cmp", "First"}
+                                    "Add", "Cmp", "First", "AggExpl"}
       [] Fam = "chainp" -> prod \in {"Select", "Add", "Pack"}
-      [] Fam \in {"chain", "chain1", "chainx"} ->
+      [] Fam = "chain1" -> prod \in {"Select", "Where", "SelectMany", "Cmp", "Add", "Pack", "Count", "FuncKw"}
+      [] Fam \in {"chain", "chainx"} ->
                           prod \in {"Select", "Where", "SelectMany", "Cmp", "Add", "Pack", "Count"}
+      [] Fam = "mdp"   -> prod \in {"Select", "MD", "Pack"}
       [] Fam = "meth"  -> prod \in {"Select", "Where", "SelectMany", "First", "Count", "Cmp", "Add", "Sum",
                                     "MethArgs", "OtherMeth", "KwOp"}
       [] Fam = "agg2"  -> prod \in {"Select", "Where", "Count", "Len", "Sum", "Max", "Min", "Add", "Cmp",
@@ -73,7 +76,8 @@ Enabled(prod) ==
       [] Fam = "helper" -> prod \in {"Select", "Where", "SelectMany", "Helper", "Add", "Cmp", "Count", "First"}
       [] Fam = "e2e"   -> prod \in {"Select", "Where", "SelectMany", "First", "Count", "Add", "Mul", "Cmp", "If",
                                     "TupProj", "MethArgs", "MethKw", "Sum", "And", "BetaDef", "HelperE2E"}
-      [] Fam = "all"   -> prod \notin {"OtherMeth", "KwOp", "AggOdd", "MD", "OutIdx", "AbsentKey", "Comp", "Helper", "HelperE2E"}
+      [] Fam = "all"   -> prod \notin {"OtherMeth", "KwOp", "AggOdd", "MD", "OutIdx", "AbsentKey", "Comp", "Helper", "HelperE2E",
+                                       "AggExpl", "FuncKw", "UnIdx"}
       [] OTHER -> FALSE
 
 (* ------------------------------------------------------------------ *)
@@ -181,6 +185,10 @@ NonLeaf(h) ==
           {Dct(<<StrC("k1"), Hole("Pair", sp[1], ns, ss), StrC("k2"), Hole("Int", sp[2], ns, ss)>>) :
               sp \in Split2(r)}
        ELSE {}) \cup
+      (IF s = "RecS" /\ Enabled("Pack") THEN
+          {Dct(<<StrC("k1"), Hole("PS", sp[1], ns, ss), StrC("k2"), Hole("Pair", sp[2], ns, ss)>>) : sp \in Split2(r)} \cup
+          {Dct(<<StrC("k1"), Hole("PS", r, ns, ss), StrC("k2"), IntC(1)>>)}
+       ELSE {}) \cup
       (IF s = "PSP" /\ Enabled("Pack") THEN
           {Tup(<<Hole("SeqPair", sp[1], ns, ss), Hole("Int", sp[2], ns, ss)>>) : sp \in Split2(r)}
        ELSE {}) \cup
@@ -236,9 +244,13 @@ NonLeaf(h) ==
           {IfExp(BoolC(TRUE), Hole("Int", r, ns, ss), Meth(Name("ds"), "len", <<>>))}
        ELSE {}) \cup
       (IF s \in SeqSorts /\ Enabled("OtherMeth") THEN
-          UNION {{Meth(Hole(SeqOf(y), sp[1], ns, ss), "Foo",
+          UNION {{Meth(Hole(SeqOf(y), sp[1], ns, ss), nm,
                        <<Lam1(x, Hole(Elem(s), sp[2], Push(ns, x), Append(ss, SortT(y))))>>) :
-                     sp \in Split2(r), x \in Binders} : y \in {"Jet"}}
+                     sp \in Split2(r), x \in Binders, nm \in {"Foo", "SelectedJets", "PreSelect", "select"}} : y \in {"Jet"}}
+       ELSE {}) \cup
+      (IF s = "Int" /\ Enabled("OtherMeth") THEN
+          {Meth(v, nm, <<>>) : v \in VarsOf("Jet", ns, ss) \cup VarsOf("Evt", ns, ss), nm \in {"SumEt", "CountAbove", "FirstTrack"}} \cup
+          {Meth(Hole("SeqJet", r, ns, ss), nm, <<>>) : nm \in {"CountAbove", "MaxPt", "Counts"}}
        ELSE {}) \cup
       (IF s \in SeqSorts /\ Enabled("KwOp") THEN
           {CallK(Attr(Hole(s, sp[1], ns, ss), "Where"), <<>>, <<"filter">>,
@@ -247,6 +259,17 @@ NonLeaf(h) ==
        ELSE {}) \cup
       (IF s \in SeqSorts /\ Enabled("MD") THEN
           {Fn("MetaData", <<Hole(s, r, ns, ss), d>>) : d \in {Dct(<<>>), Dct(<<StrC("m"), IntC(1)>>)}}
+       ELSE {}) \cup
+      (* a fold written by the user, with shortcuts inside its source and its lambda *)
+      (IF s = "Int" /\ Enabled("AggExpl") THEN
+          {Fn("Aggregate", <<Hole("SeqInt", sp[1], ns, ss), IntC(0),
+                             Lam(<<"acc", "v">>, BinOp("+", Name("acc"),
+                                 Hole("Int", sp[2], ns \o <<"acc", "v">>, ss \o <<SortT("Int"), SortT("Int")>>)))>>) :
+              sp \in Split2(r)} \cup
+          {Fn("Aggregate", <<Hole("SeqJet", sp[1], ns, ss), IntC(0),
+                             Lam(<<"acc", "v">>, BinOp("+", Name("acc"),
+                                 Hole("Int", sp[2], ns \o <<"acc", "v">>, ss \o <<SortT("Int"), SortT("Jet")>>)))>>) :
+              sp \in Split2(r)}
        ELSE {}) \cup
       (IF s = "Int" /\ Enabled("Max") THEN {Fn("Max", <<Hole("SeqInt", r, ns, ss)>>)} ELSE {}) \cup
       (IF s = "Int" /\ Enabled("Min") THEN {Fn("Min", <<Hole("SeqInt", r, ns, ss)>>)} ELSE {}) \cup
@@ -284,6 +307,10 @@ NonLeaf(h) ==
           {Sub(Lst(<<Hole("Int", sp[1], ns, ss), Hole("Int", sp[2], ns, ss)>>), IntC(-2)) :
               sp \in Split2(r)}
        ELSE {}) \cup
+      (IF s = "Int" /\ Enabled("UnIdx") THEN
+          {Sub(T(k, "", 0, <<>>, <<Hole("Int", sp[1], ns, ss), Hole("Int", sp[2], ns, ss), IntC(1)>>), UnOp(o[1], IntC(o[2]))) :
+              sp \in Split2(r), k \in {"tuple", "list"}, o \in {<<"+", 1>>, <<"+", 0>>, <<"~", 0>>, <<"~", 1>>}}
+       ELSE {}) \cup
       (IF s = "Int" /\ Enabled("VarIdx") THEN
           {Sub(Tup(<<Hole("Int", sp[1], ns, ss), Hole("Int", sp[2], ns, ss)>>),
                BinOp("%", Hole("Int", sp[3], ns, ss), IntC(2))) : sp \in Split3(r)}
@@ -319,6 +346,9 @@ NonLeaf(h) ==
           {Fn("abs", <<Hole("Int", r, ns, ss)>>)} \cup
           {CallK(Name("myfn"), <<Hole("Int", sp[1], ns, ss)>>, <<"y">>, <<Hole("Int", sp[2], ns, ss)>>) :
               sp \in Split2(r)}
+       ELSE {}) \cup
+      (IF s = "Int" /\ Enabled("FuncKw") THEN
+          {CallK(Name("myfn"), <<Hole("Int", sp[1], ns, ss)>>, <<"y">>, <<Hole("Int", sp[2], ns, ss)>>) : sp \in Split2(r)}
        ELSE {}) \cup
       (* ---- calls of captured one-line helpers (C05; table in Sem.HelperLam) ---- *)
       (IF s = "Int" /\ Enabled("Helper") THEN
@@ -382,6 +412,7 @@ Fill(t) ==
          IN {[t EXCEPT !.a[i] = c] : c \in Fill(t.a[i])}
 
 RootSorts == CASE Fam = "chainp" -> {"SeqInt", "SeqSeqInt"}
+               [] Fam = "mdp" -> {"SeqRecS", "SeqPS"}
                [] Fam \in {"idx", "chain", "chain1", "chainx"} -> {"SeqInt"}
                [] Fam \in {"agg"} -> {"SeqInt", "Int"}
                [] Fam = "helper" -> {"SeqInt", "SeqJet"}
